@@ -68,6 +68,14 @@ func runC20(c *Ctx) {
 			continue
 		}
 		n++
+		viaHelper := OkHelper("length<=maximum", dec, func(h *ssa.Function, cc ssa.CallInstruction) []Atom {
+			L := LiftPred(isLength, h, cc)
+			return []Atom{Cmp("length<=d.defaultMaxBodySize", L, token.LEQ, VField(fDefBody)), Cmp("length<=d.typeMaxBodySize[typ]", L, token.LEQ, isTypeMax)}
+		})
+		if CountAtomEdges(dec, viaHelper) > 0 && CountAtomEdges(dec, leDefault) == 0 && CountAtomEdges(dec, leType) == 0 {
+			c.Guarded(fmt.Sprintf("asserts.(*Decoder).Decode#body-length-upper-bound#%s", su.Role), dec, su.Instr, []Clause{{viaHelper}}, nil)
+			continue
+		}
 		c.Guarded(fmt.Sprintf("asserts.(*Decoder).Decode#body-length-upper-bound#%s", su.Role), dec, su.Instr, []Clause{{leDefault, leType}}, nil)
 	}
 	if n == 0 {
@@ -183,7 +191,12 @@ func runC20(c *Ctx) {
 			name := fmt.Sprintf("%s#input-int-%s#%d", SSAFuncName(fn), su.Role, perRole[su.Role])
 			X := VIs(srcVal)
 			c.Guarded(name+"#lower", fn, su.Instr, []Clause{LowerBoundAtoms("n", X)}, &GOpt{NoVacuity: true})
-			c.Guarded(name+"#upper", fn, su.Instr, []Clause{UpperBoundAtoms("n", X)}, &GOpt{NoVacuity: true})
+			fnHere := fn
+			upper := append(Clause{}, UpperBoundAtoms("n", X)...)
+			upper = append(upper, OkHelper("n<=v", fnHere, func(h *ssa.Function, cc ssa.CallInstruction) []Atom {
+				return UpperBoundAtoms("n", LiftPred(X, h, cc))
+			}))
+			c.Guarded(name+"#upper", fn, su.Instr, []Clause{upper}, &GOpt{NoVacuity: true})
 		}
 	}
 	c.Holds("asserts#input-int-sources", token.NoPos, fmt.Sprintf("%d parse sites examined, %d size uses of their results", nSrc, nUse))
